@@ -383,10 +383,21 @@ where
             //
             // If you don't understand this...that's fine, just don't mess with
             // it. :)
-            id if filter::is_psf_downcast_marker(id) => self
-                .subscriber
-                .downcast_raw(id)
-                .and(self.inner.downcast_raw(id)),
+            id if filter::is_psf_downcast_marker(id) => {
+                let outer = self.subscriber.downcast_raw(id);
+                let inner = self.inner.downcast_raw(id);
+                // A side that is an `Option::None` (or empty) subscriber must
+                // behave as if it were absent: it has no say in whether this
+                // tree is per-subscriber filtered.
+                let none_marker = TypeId::of::<super::NoneLayerMarker>();
+                if outer.is_none() && self.subscriber.downcast_raw(none_marker).is_some() {
+                    inner
+                } else if inner.is_none() && self.inner.downcast_raw(none_marker).is_some() {
+                    outer
+                } else {
+                    outer.and(inner)
+                }
+            }
 
             // Otherwise, try to downcast both branches normally...
             _ => self
